@@ -26,6 +26,11 @@ pub struct Hist {
     pub funds: Vec<TransactionView>,
     pub dir: PathBuf,
     pub node: Option<Node>,
+    /// a long-lived service object bound to the node's Shared (c19: the block-filter service, one instance per node
+    /// process as in the real node); dropped before the node is stopped
+    pub node_bound: std::cell::RefCell<Option<Box<dyn std::any::Any>>>,
+    /// transactions pay to locks of their own (c19: block filters that differ between blocks)
+    pub vary_locks: bool,
     /// every block ever built (all branches), id = index + 1; genesis is id 0
     pub blocks: Vec<BlockView>,
     pub block_id: HashMap<Byte32, u64>,
@@ -61,6 +66,7 @@ impl Hist {
             cfg, consensus, funds: funds.clone(), dir, node: Some(node),
             blocks: vec![], block_id: HashMap::new(), txs: vec![], tx_id: HashMap::new(),
             pending: HashMap::new(), outs: vec![], used_uncles: HashSet::new(), stash: vec![],
+            node_bound: std::cell::RefCell::new(None), vary_locks: false,
             jops: vec![], stats: BTreeMap::new(), next_tag: 1, with_freezer, ts_choices: vec![1, 20, 900, 15_000, 700_000, 3_000_000],
         };
         let genesis = h.consensus.genesis_block().clone();
@@ -178,7 +184,7 @@ impl Hist {
             let fee = rng.range(0, 5000);
             if (total - fee) / (n_out as u64) < 70_00000000 { continue; }
             self.next_tag += 1;
-            let tx = spend(&ins, n_out, fee, self.next_tag);
+            let tx = spend_with_locks(&ins, n_out, fee, self.next_tag, self.vary_locks);
             self.register_tx(&tx);
             for (i, o) in tx.outputs().into_iter().enumerate() {
                 let cap: u64 = o.capacity().into();
@@ -335,6 +341,7 @@ impl Hist {
     }
 
     pub fn restart(&mut self, obs: &mut dyn FnMut(&Hist, &Change)) {
+        self.node_bound.borrow_mut().take();
         let node = self.node.take().unwrap();
         node.stop();
         self.node = Some(Node::on_disk(&self.consensus, &self.dir, self.with_freezer));
@@ -381,6 +388,7 @@ impl Hist {
     }
 
     pub fn finish(mut self) {
+        self.node_bound.borrow_mut().take();
         if let Some(n) = self.node.take() { n.stop(); }
         let _ = std::fs::remove_dir_all(&self.dir);
     }
